@@ -281,6 +281,15 @@ func registerOverrides(e *Engine) {
 		}
 		return nil
 	})
+	e.reg(zz+"FireTimers", func(in *interp, fr *frame, a []value) value {
+		// every pending time.AfterFunc callback runs now, each in its own (timer) goroutine
+		fns := in.afterFuncs
+		in.afterFuncs = nil
+		for _, f := range fns {
+			in.spawnNamed("", "time.AfterFunc", f, nil)
+		}
+		return nil
+	})
 	e.reg(zz+"StopExploring", func(in *interp, fr *frame, a []value) value {
 		in.sch.explore = false
 		for _, t := range in.sch.threads {
